@@ -103,6 +103,10 @@ def worker_main(mod, prop, seed, indices, wfd, deadline, sample_idx):
             except HarnessError as e:
                 out.write(json.dumps({"type": "harness_error", "idx": idx, "error": str(e)[:2000]}) + "\n")
                 continue
+            except Exception:
+                out.write(json.dumps({"type": "harness_error", "idx": idx,
+                                      "error": traceback.format_exc()[-2000:]}) + "\n")
+                continue
             msg = {"type": "run", "idx": idx, "plan_sha": res["plan_sha"], "log": res["log"],
                    "stats": res["stats"], "nontrivial": res["nontrivial"], "nviol": len(res["violations"])}
             if idx in sample_idx:
